@@ -26,10 +26,11 @@ type dinst struct {
 	tag      string
 	honest   bool
 	m        *disc.Member
-	hears    func(src uint16) bool // input filter (nil = hears everybody)
-	speaksTo func(dst uint16) bool // output routing (nil = everybody)
-	dupTo    []uint16              // every transmission is additionally sent to these members (same transport identity)
-	gid      uint64                // goroutine that runs Synchronize
+	hears    func(src uint16) bool                // input filter (nil = hears everybody)
+	speaksTo func(dst uint16) bool                // output routing (nil = everybody)
+	dupTo    []uint16                             // every transmission is additionally sent to these members (same transport identity)
+	rewrite  func(dst uint16, data []byte) []byte // the transmission is replaced (crafted peer lists under the instance's real tag)
+	gid      uint64                               // goroutine that runs Synchronize
 	// results
 	mu     sync.Mutex
 	lists  [][]uint16 // continuation invocations
@@ -97,6 +98,12 @@ func (n *dnet) transmit(in *dinst, dst uint16, b []byte) {
 		return
 	}
 	n.sent.Store(in.id, true)
+	if in.rewrite != nil {
+		b = in.rewrite(dst, b)
+		if b == nil {
+			return
+		}
+	}
 	n.inject(in.id, dst, b)
 	for _, d := range in.dupTo {
 		if d != dst {
